@@ -5,12 +5,16 @@
             has persisted its registry change for that database and not yet written / deleted the config
             document is alive;
      hyp_b  no_stale_giveup: ... and only when the waiter's view of that database's registry entry is the stored one;
-     hyp_c  no_overlap_with_finalize: a change of a database is not started (step-2 registry write) while another
-            alive node is in the finalize phase (after its config write / delete) of a change of that database;
+     hyp_c  no_overlap_with_finalize: an update or a delete of a database is not started (step-2 registry write)
+            while another alive node is in the finalize phase (after its config write / delete) of a change of
+            that database, and a create is not started while an alive UPDATE of it finalizes (a create may overlap
+            with the finalize of a delete);
      hyp_d  prompt_rollback: the fence (touch) of a roll-back is written only while the repairer's view of that
             database's registry entry is still the stored one.
-   hyp_a and hyp_d are timing assumptions (a node stalled for longer than the retry timeout violates them); hyp_b
-   and hyp_c exclude races of the UNCHANGED code that need no stalled node (C15_Refuted.v).
+   hyp_a, hyp_c and hyp_d are timing assumptions (only a node stalled between two consecutive storage calls while
+   other nodes complete whole operations violates them); hyp_b excludes a race of the unchanged code that needs no
+   stalled node (C15_Refuted.v).  Before the repair cd27b43 of DeleteConfig's finalize, hyp_c also had to exclude a
+   create overlapping with the finalize of a delete -- a race without any stalled node (C15_Refuted.v, run_old).
    Under them: the store invariant of the crash-sequential runs (version_linkage), no roll-back ever adopts a
    config document (registry_ownership without side condition), an acknowledged change is what the store shows,
    and a steady database is changed only by a node that targets it. *)
@@ -59,9 +63,15 @@ Definition hyp_b (w : world) (nd : node) (expired : bool) : bool :=
   | Some dd => view_ok w nd dd
   | None => true
   end.
+Definition is_insert (o : opk) : bool := match o with OInsert _ _ _ => true | _ => false end.
+Definition is_delete (o : opk) : bool := match o with ODelete _ => true | _ => false end.
+(* an alive node in the finalize phase of a change of d blocks the start of operation o on d -- except that a
+   create may start while a DELETE finalizes (the finalize only removes the entry it marked: repair cd27b43) *)
+Definition blocks (o : opk) (d : N) (X : node) : bool :=
+  busy final_pc d X && negb (is_insert o && is_delete (n_op X)).
 Definition hyp_c (w : world) (nd : node) : bool :=
   match n_pc nd with
-  | PMainWrite _ => negb (existsb (busy final_pc (op_db (n_op nd))) (w_nodes w))
+  | PMainWrite _ => negb (existsb (blocks (n_op nd) (op_db (n_op nd))) (w_nodes w))
   | _ => true
   end.
 Definition hyp_d (w : world) (nd : node) : bool :=
